@@ -116,11 +116,17 @@ func runSched(cs Case) schedResult {
 		c.wg.Add(1)
 		go func() {
 			defer c.wg.Done()
+			defer func() {
+				if p := recover(); p != nil {
+					r.violate(panicViolation(w, p))
+				}
+				w.state.Store(stFinished)
+				w.fin = true
+				w.point = "finished"
+				c.parked <- struct{}{} // buffered: never blocks, also during teardown
+			}()
 			<-w.resume
 			r.interp(w)
-			w.fin = true
-			w.point = "finished"
-			c.parked <- struct{}{} // buffered: never blocks, also during teardown
 		}()
 	}
 
